@@ -105,6 +105,8 @@ def lexStep {α} (I : Interp α) (t : Table) (lm : Str → Option Nat)
         match st.res[i]? with
         | none => .error (.panic "parser.rs:find_op_of_comma index")
         | some opTok =>
+          -- a second comma inside the same pair of parentheses is rejected
+          if st.owed.getLast? == some (st.depth - 1) then .error (.err "second_comma") else
           .ok (1, { res := st.res.set i .popen ++ [.pclose, opTok, .popen],
                     owed := st.owed ++ [st.depth - 1], depth := st.depth })
     else if c == '{' then
